@@ -19,7 +19,31 @@ ANNOTS = ["int", "str", "bytes", "float", "bool", "None", "object", "list[int]",
 
 GLOBAL_NAMES = ["g", "cfg", "state", "limit"]
 
-HEADER = """from typing import Union, Optional, Protocol, TypeVar, overload, Callable, Generic, Sequence, Mapping
+# library objects and stub-declared supertypes: (import, constructor expression, accepted annotation, other annotation)
+LIBRARY = [
+    ("io", "io.StringIO()", "typing.TextIO", "typing.BinaryIO"),
+    ("io", "io.BytesIO()", "typing.BinaryIO", "typing.TextIO"),
+    ("collections", "collections.OrderedDict()", "typing.MutableMapping", "typing.Sequence"),
+    ("collections", "collections.deque()", "typing.Iterable", "typing.Mapping"),
+    ("collections", "collections.Counter()", "typing.Mapping", "typing.Sequence"),
+    ("pathlib", "pathlib.Path('x')", "os.PathLike", "typing.TextIO"),
+    ("fractions", "fractions.Fraction(1, 2)", "typing.SupportsFloat", "typing.Sequence"),
+    ("decimal", "decimal.Decimal(1)", "typing.SupportsAbs", "typing.Mapping"),
+    ("array", "array.array('i')", "typing.MutableSequence", "typing.Mapping"),
+    ("re", "re.compile('x')", "typing.Pattern", "typing.Match"),
+    ("datetime", "datetime.datetime(2020, 1, 1)", "datetime.date", "datetime.time"),
+    ("string", "string.Template('x')", "object", "typing.Sequence"),
+    ("tempfile", "tempfile.TemporaryFile()", "typing.IO", "typing.Mapping"),
+]
+# generic protocols / ABCs of the standard library with one type argument, and argument expressions
+STD_GENERICS = ["typing.SupportsAbs", "typing.SupportsRound", "typing.Iterable", "typing.Sequence", "typing.Collection",
+                "typing.Container", "typing.Iterator", "typing.Reversible", "typing.AbstractSet", "typing.Awaitable"]
+STD_ARGS = ["int", "str", "float", "bytes", "bool", "None", "object"]
+STD_VALUES = ["1", "'s'", "2.5", "b'x'", "[1]", "['a']", "(1, 2)", "('a',)", "{1}", "{'a': 1}", "True", "range(3)", "iter([1])", "1j"]
+
+HEADER = """import typing
+import os
+from typing import Union, Optional, Protocol, TypeVar, overload, Callable, Generic, Sequence, Mapping
 from typing_extensions import TypedDict, Literal, NotRequired
 from contextlib import suppress
 from dataclasses import dataclass
@@ -482,13 +506,65 @@ class Gen:
         self.emit(2, f"reveal_type(self.{r.choice(GLOBAL_NAMES)})")
         self.emit(0, "")
 
+    def library_section(self, libs=None):
+        """The same library objects used in different contexts: bare expression statement,
+        argument of a stub-typed parameter, annotation, base class, isinstance, return value.
+        What an earlier use leaves behind on shared objects (cached signatures, type objects)
+        must not change what a later use reports."""
+        r = self.rng
+        self.features.add("library")
+        libs = libs if libs is not None else r.sample(range(len(LIBRARY)), r.randrange(1, 4))
+        self.emit(0, "# libs: " + ",".join(map(str, libs)))
+        for li in libs:
+            mod, ctor, good, other = LIBRARY[li]
+            self.emit(0, f"import {mod}")
+            n = self.fresh("lib")
+            ctxs = r.sample(range(8), r.randrange(2, 6))
+            self.emit(0, f"def want_good_{n}(p: {good}) -> None: pass")
+            self.emit(0, f"def want_other_{n}(p: {other}) -> None: pass")
+            self.emit(0, f"def {n}(q):")
+            for c in ctxs:
+                if c == 0:
+                    self.emit(1, ctor)                       # bare expression statement
+                elif c == 1:
+                    self.emit(1, f"want_good_{n}({ctor})")
+                elif c == 2:
+                    self.emit(1, f"want_other_{n}({ctor})")
+                elif c == 3:
+                    self.emit(1, f"v_{n}: {good} = {ctor}")
+                    self.emit(1, f"reveal_type(v_{n})")
+                elif c == 4:
+                    self.emit(1, f"reveal_type({ctor})")
+                elif c == 5:
+                    self.emit(1, f"if isinstance(q, type({ctor})): reveal_type(q)")
+                elif c == 6:
+                    self.emit(1, f"w_{n}: {other} = {ctor}")
+                else:
+                    self.emit(1, f"x_{n} = {ctor}")
+                    self.emit(1, f"want_good_{n}(x_{n})")
+                    self.emit(1, f"x_{n}.definitely_not_an_attribute")
+            self.emit(1, "return q")
+        # generic protocols of the standard library with varying type arguments
+        g = r.choice(STD_GENERICS)
+        n = self.fresh("proto")
+        args = r.sample(STD_ARGS, r.randrange(1, 4))
+        for a in args:
+            self.emit(0, f"def want_{n}_{a.lower()}(p: {g}[{a}]) -> None: pass")
+        self.emit(0, f"def {n}(i: int, s: str, f: float):")
+        for _ in range(r.randrange(2, 6)):
+            a = r.choice(args)
+            v = r.choice(STD_VALUES + ["i", "s", "f", "i", "s"])
+            self.emit(1, f"want_{n}_{a.lower()}({v})")
+        self.emit(0, "")
+
     def program(self):
         r = self.rng
         self.lines = [HEADER, "def helper(x, *, aa=0): return x", ""]
         self.features = set()
         pieces = [self.flow_function] * 5 + [self.call_section, self.protocol_section, self.overload_section,
                                              self.typevar_section, self.typeddict_section, self.class_section,
-                                             self.global_section, self.global_section]
+                                             self.global_section, self.global_section,
+                                             self.library_section, self.library_section, self.library_section]
         for _ in range(r.randrange(3, 7)):
             r.choice(pieces)()
         return "\n".join(self.lines) + "\n", sorted(self.features)
@@ -571,6 +647,12 @@ def related_variant(src: str, rng: random.Random) -> str:
         ast.fix_missing_locations(tree)
         try:
             out = ast.unparse(tree)
+            libs = sorted({int(x) for line in src.splitlines() if line.startswith("# libs: ") for x in line[8:].split(",") if x})
+            if libs:
+                g = Gen(rng)
+                g.lines = []
+                g.library_section(libs)   # the same library objects, used in other contexts
+                out = out + "\n" + "\n".join(g.lines) + "\n"
             with warnings.catch_warnings():
                 warnings.simplefilter("ignore")
                 exec(compile(out, "<rel>", "exec"), {"__name__": "c10rel_probe"})
